@@ -170,9 +170,11 @@ def build_fn(f, sources, fnmeta):
     # --- injection (never executable) ---
     inj_body = body
     heads = loop_heads(inj_body)
+    lost = []
     for k in sorted(f.loops, reverse=True):
         if k > len(heads):
-            raise X.AnchorLost('loop %d not found in %s (has %d)' % (k, o['name'], len(heads)))
+            lost.append('loop %d' % k)
+            continue
         p = heads[k - 1]
         inj_body = inj_body[:p] + '\n' + '\n'.join(f.loops[k]) + '\n' + inj_body[p:]
     unused = set(range(1, len(heads) + 1)) - set(f.loops)
@@ -181,12 +183,14 @@ def build_fn(f, sources, fnmeta):
     for (k, rx, txt) in f.before:
         hits = [i for i, l in enumerate(blines) if re.search(rx, l)]
         if len(hits) < k:
-            raise X.AnchorLost('before-anchor /%s/ #%d not found in %s' % (rx, k, o['name']))
+            lost.append('before /%s/ #%d' % (rx, k))
+            continue
         inserts.append((hits[k - 1], txt))
     for (k, rx, txt) in f.after:
         hits = [i for i, l in enumerate(blines) if re.search(rx, l)]
         if len(hits) < k:
-            raise X.AnchorLost('after-anchor /%s/ #%d not found in %s' % (rx, k, o['name']))
+            lost.append('after /%s/ #%d' % (rx, k))
+            continue
         inserts.append((stmt_end_line(blines, hits[k - 1]) + 1, txt))
     for pos, txt in sorted(inserts, key=lambda x: -x[0]):
         blines[pos:pos] = txt
@@ -203,6 +207,9 @@ def build_fn(f, sources, fnmeta):
         'props': [p for p in o.get('props', '').split(',') if p],
         'loops_without_invariant': sorted(unused), 'translated_sha': X.sha(translated),
         'contract_file': o.get('contract_file'),
+        # proof hints whose anchor no longer matches are dropped: the function is then checked without them and a
+        # failure in it is 'undecided' (never reported as a violation on its own)
+        'lost_hints': lost,
     }
     return full, meta
 
